@@ -33,6 +33,7 @@ var c18Env = map[string]ref.V{
 	"l":  univ.L(ref.Int(1), ref.Int(2), ref.Int(3)),
 	"l2": univ.L(ref.Int(3), ref.Int(1), ref.Int(1)),
 	"ls": univ.L("b", "a"),
+	"ld": univ.L("a", "b", "a", "c", "b"),
 	"lf": univ.L(ref.Float(2.5), ref.Float(0.5)),
 	"ln": univ.L(univ.L(ref.Int(1)), univ.L(ref.Int(2), ref.Int(3))),
 	"le": univ.L(),
@@ -58,6 +59,7 @@ var c18Templates = []c18Tpl{
 	{src: "{% case n %}{% when 1 %}one{% when 3 %}three{% else %}other{% endcase %}{% case w %}{% when 2 %}two{% endcase %}"},
 	{src: "{% if n %}T{% endif %}{% unless g %}U{% endunless %}{% if n and f %}V{% endif %}"},
 	{src: "{{ l | sort | join: ',' }}|{{ l2 | sort | join: ',' }}|{{ lf | sort | join: ',' }}|{{ l2 | uniq | join: ',' }}|{{ l | reverse | join: ',' }}"},
+	{src: "{{ ld | uniq | join: ',' }}|{{ ld | uniq | size }}|{{ ld | sort | uniq | join }}|{{ ld | reverse | uniq | join }}|{% if ld contains 'c' %}C{% endif %}"},
 	{src: "{% if l contains 2 %}A{% endif %}{% if l contains n %}B{% endif %}{% if l2 contains 2 %}C{% else %}D{% endif %}{% if l == l %}E{% endif %}{% if l == l2 %}F{% else %}G{% endif %}"},
 	// strings
 	{src: "{{ s }}|{{ e }}|{{ u }}"},
